@@ -26,6 +26,12 @@
 #ifndef SEL0
 #define SEL0 0
 #endif
+#ifndef PRE_POINTS
+#define PRE_POINTS 8
+#endif
+#ifndef PRE_H
+#define PRE_H 0
+#endif
 #ifndef NMAX
 #define NMAX 200          /* request sizes 0..NMAX: all four classes (8,16,32,64), class boundaries, the small/large threshold (64|65), large frames of 2..4 pages */
 #endif
@@ -35,7 +41,8 @@
 #ifndef PRESIZE
 #define PRESIZE 64
 #endif
-#define KH (K + PREFILL)
+#define KH (K + PREFILL + 1)        /* + one handle for the preempting operation (PREEMPT scenarios) */
+#define KP (K + PREFILL)
 typedef uint64_t addr_t;
 #if POLICY == 4
 #define PAGE 512u        /* page == superblock == slab: a large block starts exactly on the next superblock boundary */
@@ -166,13 +173,19 @@ void ir2c_access_hook(uint64_t a, uint64_t n, int write) {
 void ir2c_access_hook(uint64_t a, uint64_t n, int write) { (void)a; (void)n; (void)write; }
 #endif
 #endif
-void vp_mutex_lock(uint64_t m) { VP_ASSERT(RD4(m) == 0, "lock() of a mutex that is already held (self-deadlock)"); VP_ASSERT(locks_held == 0, "a second pool lock taken while one is held (lock-order risk)"); WR4(m, 1); locks_held++; held_mutex = m; }
-void vp_mutex_unlock(uint64_t m) { VP_ASSERT(RD4(m) == 1, "unlock() of a mutex that is not held"); WR4(m, 0); locks_held--; held_mutex = 0; }
+#ifdef PREEMPT
+static void maybe_preempt_pool(void);
+#define POOL_PREEMPT() maybe_preempt_pool()
+#else
+#define POOL_PREEMPT() ((void)0)
+#endif
+void vp_mutex_lock(uint64_t m) { POOL_PREEMPT(); VP_ASSERT(RD4(m) == 0, "lock() of a mutex that is already held (self-deadlock)"); VP_ASSERT(locks_held == 0, "a second pool lock taken while one is held (lock-order risk)"); WR4(m, 1); locks_held++; held_mutex = m; }
+void vp_mutex_unlock(uint64_t m) { VP_ASSERT(RD4(m) == 1, "unlock() of a mutex that is not held"); WR4(m, 0); locks_held--; held_mutex = 0; POOL_PREEMPT(); }
 
 /* ------------------------------------------------------------------ reference bookkeeping */
 addr_t hp[KH]; uint64_t hreq[KH], hsize[KH]; int hlive[KH], hcls[KH]; uint32_t hpatn;
 int peak_live[5], cur_live[5], slab_maps[5];          /* per class 0..3 (+4 = large) */
-uint64_t pages_expected;
+uint64_t pages_expected; int preempted;       /* a preempting operation ran inside another call: the single-threaded footprint bound does not apply */
 static int cls_of_size(uint64_t sz) { return sz == 8 ? 0 : sz == 16 ? 1 : sz == 32 ? 2 : sz == 64 ? 3 : 4; }     /* from the reported size: concrete on every path */
 static uint64_t cls_size(int c) { return 8u << c; }
 static uint32_t pat(int i, uint64_t w) { return 0xA5000000u ^ ((uint32_t)i << 16) ^ (uint32_t)(w * 2654435761u >> 8); }
@@ -232,58 +245,33 @@ static void check_all(void) {
 	for(int b = 0; b < 4; b++) VP_ASSERT(RD4(POOL + POOL_OFF_BKTS + BKT_SIZE * b) == 0, "a bucket mutex is still held after the call returned");
 	for(int i = 0; i < KH; i++) if(hlive[i]) check_block(i);
 	check_slabs();
-	VP_ASSERT(pool_used_pages(POOL) == pages_expected, "used-page counter drifted (did not rise/fall by the size of the region taken/returned)");
+	{ uint64_t pages = 0; int nslab[4] = {0, 0, 0, 0};
+	  for(int m = 0; m < MAXMAPS; m++) if(m < nmaps && maps[m].live) { addr_t fr = (maps[m].base + SB - 1) & ~(addr_t)(SB - 1); uint32_t ty = RD4(fr + OFF_TYPE);
+	    if(ty == 1 || ty == 2) pages += (RD8(fr + OFF_LEN) + PAGE) / PAGE; if(ty == 1 && RD4(fr + OFF_INDEX) < 4) nslab[RD4(fr + OFF_INDEX)]++; }
+	  VP_ASSERT(pool_used_pages(POOL) == pages, "used-page counter drifted (it is not the sum over the regions currently taken)");
+	  for(int c = 0; c < 4; c++) slab_maps[c] = nslab[c]; }
 	int large_live = 0; for(int i = 0; i < KH; i++) if(hlive[i] && hcls[i] == 4) large_live++;
 	int large_maps = 0; for(int m = 0; m < MAXMAPS; m++) if(m < nmaps && maps[m].live) { addr_t fr = (maps[m].base + SB - 1) & ~(addr_t)(SB - 1); if(RD4(fr + OFF_TYPE) == 2) large_maps++; }
 	VP_ASSERT(large_maps == large_live, "a large block's reservation stayed mapped after the block was freed (or was unmapped while live)");
-	for(int c = 0; c < 4; c++) { int sp = slots_per_slab(c); VP_ASSERT(slab_maps[c] <= (peak_live[c] + sp - 1) / sp, "more slabs mapped for a class than ceil(peak live blocks / blocks per slab): freed memory was not reused"); }
+	if(!preempted) for(int c = 0; c < 4; c++) { int sp = slots_per_slab(c); VP_ASSERT(slab_maps[c] <= (peak_live[c] + sp - 1) / sp, "more slabs mapped for a class than ceil(peak live blocks / blocks per slab): freed memory was not reused"); }
 }
 static void note_alloc(int i, addr_t p, uint64_t n, int maps_before) {
 	hp[i] = p; hreq[i] = n; hlive[i] = 1; hsize[i] = pool_get_size(POOL, p); hcls[i] = cls_of_size(hsize[i]);
 	cur_live[hcls[i]]++; if(cur_live[hcls[i]] > peak_live[hcls[i]]) peak_live[hcls[i]] = cur_live[hcls[i]];
-	if(nmaps > maps_before) { if(hcls[i] < 4) { slab_maps[hcls[i]]++; pages_expected += (RD8(((p - 1) & ~(addr_t)(SB - 1)) + OFF_LEN) + PAGE) / PAGE; } else pages_expected += (hsize[i] + PAGE) / PAGE; }
+	(void)maps_before;
 }
-static void note_free(int i) { hlive[i] = 0; cur_live[hcls[i]]--; if(hcls[i] == 4) pages_expected -= (hsize[i] + PAGE) / PAGE; }
+static void note_free(int i) { hlive[i] = 0; cur_live[hcls[i]]--; }
 
-/* one scenario: K operations with pinned kinds OPSEQ, sizes SZ[sel[s]], acting on handle HSEQ[s] (free/dealloc/realloc), map failing at call fail0.
- * Under CBMC the scenario parameters are CONCRETE: harness() enumerates them in concrete loops, so symbolic execution interprets the
- * real code on one path and every assertion is decided by constant folding / a trivial solver call.  (A symbolic size or a symbolic
- * choice explored path-wise did not terminate: values that are concrete on each path were no longer folded and every loop split per
- * iteration; measured > 2000 paths for a single allocation.)  Natively (replay, validation) the parameters are inputs. */
 static const uint64_t SZ[NSZ] = SIZES;
 static const int OS[] = OPSEQ;
 static const int HS[] = HSEQ;
-static void reset_all(void) {
-#ifndef VP_REAL
-	for(int w = 0; w < RWORDS; w++) { R0[w] = 0; R1[w] = 0; R2[w] = 0; R3[w] = 0; R4[w] = 0; R5[w] = 0; R6[w] = 0; R7[w] = 0; R8[w] = 0; R9[w] = 0; R10[w] = 0; R11[w] = 0; R12[w] = 0; R13[w] = 0; R14[w] = 0; R15[w] = 0; R16[w] = 0; R17[w] = 0; R18[w] = 0; R19[w] = 0; R20[w] = 0; R21[w] = 0; }
-	ir2c_init_globals();
-#else
-	memset(pool_mem, 0, sizeof pool_mem); for(int i = 0; i < MAXMAPS + 2; i++) if(arena_base[i]) memset((void *)(uintptr_t)arena_base[i], 0, ARENA);
+/* one pool operation with the reference bookkeeping; s = handle that receives a new block */
+#ifdef PREEMPT
+int in_outer, lockevt, pre_done, pre_at = -1, pre_sel;
 #endif
-	for(int i = 0; i < MAXMAPS + 1; i++) { maps[i].base = 0; maps[i].len = 0; maps[i].live = 0; }
-#ifdef LOCKSET
-	in_api = 0; for(int m = 0; m <= MAXMAPS; m++) slab_published[m] = 0;
-#endif
-	held_mutex = 0;
-	nmaps = 0; map_calls = 0; locks_held = 0; map_failed_now = 0; nsh = 0; pages_expected = 0;
-	for(int i = 0; i < KH; i++) { hp[i] = 0; hreq[i] = 0; hsize[i] = 0; hlive[i] = 0; hcls[i] = 0; }
-	for(int c = 0; c < 5; c++) { peak_live[c] = 0; cur_live[c] = 0; slab_maps[c] = 0; }
-}
-int scenarios_run;
-static void scenario(const int *sel, int fail0) {
-	reset_all();
-	init_spp();
-	pool_init(POOL, POL);
-	fail_at[0] = -1; fail_at[1] = -1;
-	for(int j = 0; j < PREFILL; j++) { int mb = nmaps; addr_t p = pool_alloc(POOL, PRESIZE); VP_ASSERT(p != 0, "prefill allocation failed"); if(p) { note_alloc(K + j, p, PRESIZE, mb); fill(K + j); } }
-	if(PREFILL) check_all();
-	fail_at[0] = fail0 < 0 ? -1 : fail0 + map_calls;      /* failure positions count from the first operation of the scenario proper */
-	for(int s = 0; s < K; s++) {
-		int op = OS[s], h = HS[s]; uint64_t n = SZ[sel[s]];
+static void do_op(int s, int op, int h, uint64_t n) {
+	int save_failed = map_failed_now, save_rel = releasing;
 		int maps_before = nmaps; map_failed_now = 0;
-#ifdef LOCKSET
-		in_api = 1;
-#endif
 		if(op == 0) {                                              /* allocate(n) into handle s */
 			addr_t p = pool_alloc(POOL, n);
 			if(map_failed_now) VP_ASSERT(p == 0, "allocate returned a block although map() failed");
@@ -316,6 +304,63 @@ static void scenario(const int *sel, int fail0) {
 				} else if(q) hreq[h] = n;
 			}
 		}
+	map_failed_now = save_failed; releasing = save_rel;
+}
+#ifdef PREEMPT
+/* PREEMPT scenarios: during the LAST operation of the scenario, at the lock/unlock event number pre_at (a point at which the calling
+ * thread holds no pool mutex), a whole operation PRE_OP of "another thread" runs to completion: allocate(SZ[pre_sel]) into handle KP,
+ * or free / realloc of handle PRE_H.  This covers two calls of which one is atomic with respect to the other, interleaved at
+ * lock-operation granularity: both finding a class empty, freeing into the slab the other allocates from, freeing a block the other allocated. */
+static void maybe_preempt_pool(void) {
+	if(!in_outer || pre_done) return;
+	if(lockevt++ != pre_at) return;
+	pre_done = 1; in_outer = 0; preempted = 1;
+	do_op(KP, PRE_OP, PRE_H, SZ[pre_sel]);
+	in_outer = 1;
+}
+#endif
+/* one scenario: K operations with pinned kinds OPSEQ, sizes SZ[sel[s]], acting on handle HSEQ[s] (free/dealloc/realloc), map failing at call fail0.
+ * Under CBMC the scenario parameters are CONCRETE: harness() enumerates them in concrete loops, so symbolic execution interprets the
+ * real code on one path and every assertion is decided by constant folding / a trivial solver call.  (A symbolic size or a symbolic
+ * choice explored path-wise did not terminate: values that are concrete on each path were no longer folded and every loop split per
+ * iteration; measured > 2000 paths for a single allocation.)  Natively (replay, validation) the parameters are inputs. */
+static void reset_all(void) {
+#ifndef VP_REAL
+	for(int w = 0; w < RWORDS; w++) { R0[w] = 0; R1[w] = 0; R2[w] = 0; R3[w] = 0; R4[w] = 0; R5[w] = 0; R6[w] = 0; R7[w] = 0; R8[w] = 0; R9[w] = 0; R10[w] = 0; R11[w] = 0; R12[w] = 0; R13[w] = 0; R14[w] = 0; R15[w] = 0; R16[w] = 0; R17[w] = 0; R18[w] = 0; R19[w] = 0; R20[w] = 0; R21[w] = 0; }
+	ir2c_init_globals();
+#else
+	memset(pool_mem, 0, sizeof pool_mem); for(int i = 0; i < MAXMAPS + 2; i++) if(arena_base[i]) memset((void *)(uintptr_t)arena_base[i], 0, ARENA);
+#endif
+	for(int i = 0; i < MAXMAPS + 1; i++) { maps[i].base = 0; maps[i].len = 0; maps[i].live = 0; }
+#ifdef LOCKSET
+	in_api = 0; for(int m = 0; m <= MAXMAPS; m++) slab_published[m] = 0;
+#endif
+	held_mutex = 0; preempted = 0;
+	nmaps = 0; map_calls = 0; locks_held = 0; map_failed_now = 0; nsh = 0; pages_expected = 0;
+	for(int i = 0; i < KH; i++) { hp[i] = 0; hreq[i] = 0; hsize[i] = 0; hlive[i] = 0; hcls[i] = 0; }
+	for(int c = 0; c < 5; c++) { peak_live[c] = 0; cur_live[c] = 0; slab_maps[c] = 0; }
+}
+int scenarios_run;
+static void scenario(const int *sel, int fail0) {
+	reset_all();
+	init_spp();
+	pool_init(POOL, POL);
+	fail_at[0] = -1; fail_at[1] = -1;
+	for(int j = 0; j < PREFILL; j++) { int mb = nmaps; addr_t p = pool_alloc(POOL, PRESIZE); VP_ASSERT(p != 0, "prefill allocation failed"); if(p) { note_alloc(K + j, p, PRESIZE, mb); fill(K + j); } }
+	if(PREFILL) check_all();
+	fail_at[0] = fail0 < 0 ? -1 : fail0 + map_calls;      /* failure positions count from the first operation of the scenario proper */
+	for(int s = 0; s < K; s++) {
+		int op = OS[s], h = HS[s]; uint64_t n = SZ[sel[s]];
+#ifdef LOCKSET
+		in_api = 1;
+#endif
+#ifdef PREEMPT
+		if(s == K - 1) { in_outer = 1; lockevt = 0; pre_done = 0; }
+#endif
+		do_op(s, op, h, n);
+#ifdef PREEMPT
+		in_outer = 0;
+#endif
 #ifdef LOCKSET
 		in_api = 0; for(int m = 0; m < MAXMAPS; m++) slab_published[m] = m < nmaps;
 #endif
@@ -329,6 +374,9 @@ void harness(void) {
 #ifdef VP_NATIVE
 	for(int s = 0; s < K; s++) { VP_INPUT(sel[s]); if(getenv("VP_RANDOM")) sel[s] = (unsigned)sel[s] % NSZ; VP_ASSUME(sel[s] >= 0 && sel[s] < NSZ); }
 	VP_INPUT(fail0); if(getenv("VP_RANDOM")) fail0 = (unsigned)fail0 % (K + 3) - 1; VP_ASSUME(fail0 >= -1 && fail0 <= K);
+#ifdef PREEMPT
+	VP_INPUT(pre_at); VP_INPUT(pre_sel); if(getenv("VP_RANDOM")) { pre_at = (unsigned)pre_at % PRE_POINTS; pre_sel = (unsigned)pre_sel % NSZ; } VP_ASSUME(pre_at >= 0 && pre_at < PRE_POINTS && pre_sel >= 0 && pre_sel < NSZ);
+#endif
 #ifndef FAULTS
 	fail0 = -1;
 #endif
@@ -350,9 +398,15 @@ void harness(void) {
 #if K >= 4
 	for(sel[3] = 0; sel[3] < NSZ; sel[3]++)
 #endif
+#ifdef PREEMPT
+	for(pre_at = 0; pre_at < PRE_POINTS; pre_at++) for(pre_sel = 0; pre_sel < (PRE_OP == 1 || PRE_OP == 2 ? 1 : NSZ); pre_sel++)
+#endif
 	{
 		vp_in_n = 0; for(int s = 0; s < K; s++) vp_in_log[vp_in_n++] = (uint64_t)sel[s];
 		vp_in_log[vp_in_n++] = (uint64_t)(int64_t)fail0;
+#ifdef PREEMPT
+		vp_in_log[vp_in_n++] = (uint64_t)pre_at; vp_in_log[vp_in_n++] = (uint64_t)pre_sel;
+#endif
 		scenario(sel, fail0);
 	}
 	VP_WITNESS(scenarios_run == 0, "scenarios were executed");
